@@ -4,7 +4,6 @@ import (
 	"bufio"
 	"fmt"
 	"io"
-	"os"
 	"os/exec"
 	"regexp"
 	"strings"
@@ -21,9 +20,9 @@ type Solver struct {
 	log      io.Writer
 }
 
-func NewSolver() *Solver {
+func NewSolver(alt string) *Solver {
 	cmd := exec.Command("z3", "-in")
-	if alt := os.Getenv("SOLVER"); alt != "" {
+	if alt != "" {
 		f := strings.Fields(alt)
 		cmd = exec.Command(f[0], f[1:]...)
 	}
